@@ -1,5 +1,185 @@
+"""C17 - resampling and power-law utilities conserve counts and honour their bounds."""
 from .. import AnalysisBroken
+from ..libmodels import LIB_FACTS
+from ..rules import Equiv, canon_params, check_equiv, rewrite, std_rewrites, where_of
+from ..ssa import apply_lam
+from ..terms import const, get_arg, head, is_const, show, strip, strip_all, subst, walk
+
+CLAIMED = True
+LEVEL = "other"
+TECHNIQUE = "decision-table + rational-function normal-form comparison with a specification; library-call configuration (replace=False, no p=, size) and population-idiom recognition; objective lambda compared after inlining"
+TEXT = ("Decides the repository-side content of the statement for every input: subsample draws int(n) items with numpy.random.choice(replace=False, no p) "
+        "from a population holding index i exactly counts[i] times and returns numpy.unique(sample, return_counts=True) unmodified (hence sorted "
+        "indices, positive counts summing to n, each <= the original count, refusal of n > total by numpy); downsample's decision table "
+        "(None / short input -> the same object; table -> DataFrame.sample(n=maxseqs) without replacement; else numpy choice without replacement); "
+        "powerlaw_sample is floor((xmin-1/2)(1-r)^(-1/(alpha-1)) + 1/2) on rand(int(size)) (>= xmin for r in [0,1), alpha > 1 by monotonicity, paper); "
+        "powerlaw_mle_alpha's two closed forms over c[c >= cmin], its error for unknown methods, and for 'exact' the objective -L with "
+        "L = -n log zeta(alpha, cmin) - alpha sum log x handed to minimize_scalar with bounded defaults overridable by kwargs, failure raising. "
+        "Grade A for formulas and configuration; uniformity of numpy's sampler and convergence of the optimiser are trusted.")
+NOTE = "Trusted: numpy.random.choice / numpy.unique / DataFrame.sample / scipy minimize_scalar models (prsa/libmodels.py); exact arithmetic."
+
+M = "pyrepseq.stats."
+SPEC = '''
+def powerlaw_sample(size=1, xmin=1.0, alpha=2.0):
+    r = np.random.rand(int(size))
+    return np.floor((xmin - 1 / 2) * (1 - r) ** (-1 / (alpha - 1)) + 1 / 2)
+
+def subsample(counts, n):
+    n = int(n)
+    sample = np.random.choice(UNPACK(counts), size=n, replace=False)
+    return np.unique(sample, return_counts=True)
+
+def downsample(seqs, maxseqs=None):
+    if maxseqs is None or seqs is None:
+        return seqs
+    if len(seqs) <= maxseqs:
+        return seqs
+    if isinstance(seqs, DataFrame):
+        return seqs.sample(n=maxseqs)
+    return np.random.choice(seqs, maxseqs, replace=False)
+
+def powerlaw_mle_alpha(c, cmin=1.0, method="exact", **kwargs):
+    if method not in ["simple", "continuitycorrection", "exact"]:
+        raise ValueError("unknown method")
+    C = c[c >= cmin]
+    if method == "continuitycorrection":
+        return 1 + len(C) / np.sum(np.log(C / (cmin - 1 / 2)))
+    if method == "exact":
+        opt = dict(bounds=[1.5, 4.5], method="bounded")
+        opt.update(kwargs)
+        result = scipy.optimize.minimize_scalar("<OBJ>", **opt)
+        if not result.success:
+            raise Exception("fitting failed")
+        return result.x
+    return 1 + len(C) / np.sum(np.log(C / cmin))
+
+def objective(c, cmin, alpha):
+    C = c[c >= cmin]
+    return -(-len(C) * np.log(scipy.special.zeta(alpha, cmin)) - alpha * np.sum(np.log(C)))
+'''
+
+
+def unpack_rewrite(t):
+    """Population idioms: one entry per item, index i repeated counts[i] times  ->  UNPACK(counts)."""
+    if head(t) != "call" or head(strip(t[1])) != "glob":
+        return t
+    name, kw = strip(t[1])[1], dict(t[3])
+    if name == "numpy.concatenate" and set(kw) == {"arrays"}:
+        c = strip(kw["arrays"])
+        if head(c) == "comp" and c[1] in ("list", "gen") and len(c[3]) == 1 and not c[3][0][1]:
+            elem = c[3][0][0]
+            it = strip(elem[3])
+            elt = strip(c[2])
+            if head(it) == "call" and strip(it[1]) == ("glob", "builtins.enumerate") and head(elt) == "call" and strip(elt[1]) == ("glob", "numpy.repeat"):
+                ekw, ikw = dict(elt[3]), dict(it[3])
+                if set(ekw) == {"a", "repeats"} and set(ikw) == {"iterable"} and strip(ekw["a"]) == ("item", elem, 0) and strip(ekw["repeats"]) == ("item", elem, 1):
+                    return ("call", ("unbound", "UNPACK"), (ikw["iterable"],), ())
+    if name == "numpy.repeat" and set(kw) == {"a", "repeats"}:
+        a = strip(kw["a"])
+        if head(a) == "call" and strip(a[1]) == ("glob", "numpy.arange") and dict(a[3]).get("start") == ("call", ("glob", "builtins.len"), (kw["repeats"],), ()) and len(a[3]) == 1:
+            return ("call", ("unbound", "UNPACK"), (kw["repeats"],), ())
+    return t
+
+
+def hide_objective(t):
+    if head(t) == "call" and strip(t[1]) == ("glob", "scipy.optimize.minimize_scalar"):
+        kws = tuple((k, (const("<OBJ>") if k == "fun" else v)) for k, v in t[3])
+        return ("call", t[1], t[2], kws)
+    return t
+
+
+def equiv(vec=None):
+    return Equiv(vec=vec, rewrites=std_rewrites() + [unpack_rewrite, hide_objective],
+                 modelled={"numpy.random.choice", "numpy.random.rand", "numpy.unique", "builtins.int", "builtins.isinstance", "scipy.optimize.minimize_scalar",
+                           "scipy.special.zeta", "numpy.concatenate", "numpy.repeat", "builtins.enumerate", "builtins.dict"})
+
+
+def is_vec(t):
+    t = strip(t)
+    if head(t) == "sub":      # c[c >= cmin]
+        return True
+    if head(t) == "call" and head(strip(t[1])) == "glob" and strip(t[1])[1] == "numpy.random.rand":
+        return True
+    return False
 
 
 def run(r):
-    raise AnalysisBroken("rule set for C17 not implemented yet (fail-closed stub)")
+    rep = r.rep
+    rep.explanation = ("The four functions were reduced to decision tables with rational-function / canonical-call leaves and compared with the "
+                       "specification of the statement; the sampling calls' configuration and the likelihood objective were compared explicitly.")
+    rep.trust(LIB_FACTS["numpy.random.choice"], LIB_FACTS["numpy.unique"], LIB_FACTS["DataFrame.sample"], LIB_FACTS["dict.update"],
+              "scipy.optimize.minimize_scalar(f, bounds=, method='bounded') returns a result with .success and .x, a local minimiser of f within the bounds",
+              "paper: for r in [0,1), alpha > 1, xmin >= 1/2: (xmin-1/2)(1-r)^(-1/(alpha-1)) + 1/2 >= xmin, so its floor is >= xmin for integer xmin",
+              "exact arithmetic (no floating point)")
+    targets = [("powerlaw_sample", M, "powerlaw_sample == floor((xmin-1/2)(1-r)^(-1/(alpha-1)) + 1/2) with r = numpy.random.rand(int(size))"),
+               ("subsample", M, "subsample draws int(n) items without replacement (no p=) from the unpacked population and returns numpy.unique(sample, return_counts=True) unmodified"),
+               ("downsample", "pyrepseq.distance.", "downsample: unchanged object if maxseqs/seqs is None or len <= maxseqs; DataFrame.sample(n=maxseqs); else numpy choice without replacement"),
+               ("powerlaw_mle_alpha", M, "powerlaw_mle_alpha: closed forms over c[c >= cmin], ValueError for unknown methods, bounded minimisation overridable by kwargs, failure raises")]
+    for name, mod, what in targets:
+        q = mod + name
+        s = r.A.summary(q)
+        rep.analysed(q)
+        sp = r.A.summarize_source(SPEC, name, mod[:-1])
+        code = subst(s.ret, canon_params(s))
+        spec = subst(sp.ret, canon_params(sp))
+        rule = {"powerlaw_sample": "C17-PLS", "subsample": "C17-SUB", "downsample": "C17-DS", "powerlaw_mle_alpha": "C17-MLE"}[name]
+        check_equiv(rep, rule, q, what, code, spec, where_of(r.P, s.func, s.func.node), eq=equiv(is_vec), key="specification")
+        rep.floor(rule, 1)
+
+    # ---- C17-OBJ: objective handed to the optimiser == -loglikelihood (after inlining _discrete_loglikelihood)
+    q = M + "powerlaw_mle_alpha"
+    s = r.A.summary(q)
+    cp = canon_params(s)
+    found = 0
+    for e in s.calls("scipy.optimize.minimize_scalar"):
+        found += 1
+        call = e["term"]
+        fun = get_arg(call, 0, "fun")
+        w = where_of(r.P, s.func, e.node)
+        lam = strip(fun) if fun is not None else None
+        if lam is None or head(lam) != "lam":
+            raise AnalysisBroken(f"{q}: objective passed to minimize_scalar is not a lambda / local function ({show(fun, 80)})")
+        alpha = ("param", "#alpha")
+        body = apply_lam(lam, (alpha,), {})
+        if body is None:
+            raise AnalysisBroken(f"{q}: objective lambda does not take exactly one positional argument")
+        body = r.A.expand(body, depth=3)
+        rep.analysed(M + "_discrete_loglikelihood")
+        body = subst(body, cp)
+        osp = r.A.summarize_source(SPEC, "objective")
+        ospec = subst(osp.ret, {("param", "c"): cp[("param", s.params[0][0])], ("param", "cmin"): cp[("param", s.params[1][0])], ("param", "alpha"): alpha})
+        check_equiv(rep, "C17-OBJ", q, "objective minimised == -(log-likelihood) = n log zeta(alpha, cmin) + alpha sum log x over x >= cmin", body, ospec, w, eq=equiv(is_vec), key="objective")
+    if not found:
+        raise AnalysisBroken(f"{q}: no call to scipy.optimize.minimize_scalar found (anchor vanished)")
+    rep.floor("C17-OBJ", 1)
+
+
+from ..selftest import V  # noqa: E402
+
+S = "pyrepseq/stats.py"
+D = "pyrepseq/distance.py"
+VARIANTS = [
+    V("subsample-with-replacement", S, "np.random.choice(unpacked, size=n, replace=False)", "np.random.choice(unpacked, size=n, replace=True)", rule="C17-SUB"),
+    V("subsample-replace-omitted", S, "np.random.choice(unpacked, size=n, replace=False)", "np.random.choice(unpacked, size=n)", rule="C17-SUB"),
+    V("subsample-weighted", S, "np.random.choice(unpacked, size=n, replace=False)", "np.random.choice(unpacked, size=n, replace=False, p=unpacked/unpacked.sum())", rule="C17-SUB"),
+    V("subsample-population-by-index", S, "np.repeat(np.array(i,), count) for i, count in enumerate(counts)", "np.repeat(np.array(count,), i) for i, count in enumerate(counts)", rule="C17-SUB"),
+    V("subsample-n-plus-one", S, "sample = np.random.choice(unpacked, size=n, replace=False)", "sample = np.random.choice(unpacked, size=n + 1, replace=False)", rule="C17-SUB"),
+    V("downsample-strict-less", D, "if len(seqs) <= maxseqs:", "if len(seqs) < maxseqs:", rule="C17-DS"),
+    V("downsample-with-replacement", D, "return np.random.choice(seqs, maxseqs, replace=False)", "return np.random.choice(seqs, maxseqs)", rule="C17-DS"),
+    V("downsample-table-with-replacement", D, "return seqs.sample(n=maxseqs)", "return seqs.sample(n=maxseqs, replace=True)", rule="C17-DS"),
+    V("downsample-copy-when-short", D, "    if len(seqs) <= maxseqs:\n        return seqs\n", "    if len(seqs) <= maxseqs:\n        return seqs[:maxseqs - 1]\n", rule="C17-DS"),
+    V("powerlaw-drop-half", S, "** (-1.0 / (alpha - 1.0)) + 0.5)", "** (-1.0 / (alpha - 1.0)))", rule="C17-PLS"),
+    V("powerlaw-exponent", S, "(-1.0 / (alpha - 1.0))", "(-1.0 / alpha)", rule="C17-PLS"),
+    V("mle-simple-with-correction", S, "return 1.0 + len(c) / np.sum(np.log(c / cmin))", "return 1.0 + len(c) / np.sum(np.log(c / (cmin - 0.5)))", rule="C17-MLE"),
+    V("mle-strict-cutoff", S, "    c = c[c >= cmin]\n", "    c = c[c > cmin]\n", rule="C17-MLE"),
+    V("mle-objective-sign", S, "lambda alpha: -_discrete_loglikelihood(c, alpha, cmin)", "lambda alpha: _discrete_loglikelihood(c, alpha, cmin)", rule="C17-OBJ"),
+    V("mle-loglikelihood-zeta-arg", S, "np.log(scipy.special.zeta(alpha, xmin))", "np.log(scipy.special.zeta(alpha, 1))", rule="C17-OBJ"),
+    V("mle-kwargs-not-merged", S, "        optkwargs.update(kwargs)\n", "", rule="C17-MLE"),
+    V("mle-failure-ignored", S, "        if not result.success:\n            raise Exception(\"fitting failed\")\n", "", rule="C17-MLE"),
+    V("silent-size-positional", S, "np.random.choice(unpacked, size=n, replace=False)", "np.random.choice(unpacked, n, replace=False)", expect="silent"),
+    V("silent-half-as-fraction", S, "np.log(c / (cmin - 0.5))", "np.log(c / (cmin - 1/2))", expect="silent"),
+    V("silent-arange-repeat", S, "np.concatenate([np.repeat(np.array(i,), count) for i, count in enumerate(counts)])", "np.repeat(np.arange(len(counts)), counts)", expect="silent"),
+    V("silent-dict-literal-merge", S, "        optkwargs = dict(bounds=[1.5, 4.5], method=\"bounded\")\n        optkwargs.update(kwargs)\n", "        optkwargs = {**dict(bounds=[1.5, 4.5], method=\"bounded\"), **kwargs}\n", expect="silent"),
+    V("silent-downsample-merged-guards", D, "    if maxseqs is None or seqs is None:\n        return seqs\n\n    if len(seqs) <= maxseqs:\n        return seqs\n", "    if maxseqs is None or seqs is None or len(seqs) <= maxseqs:\n        return seqs\n", expect="silent"),
+    V("silent-return-unique-directly", S, "    unique, counts = np.unique(sample, return_counts=True)\n    return unique, counts", "    return np.unique(sample, return_counts=True)", expect="silent"),
+]
